@@ -1,1 +1,8 @@
 // hook for consist/consist_model.rs (child module: `use super::*;` reaches the file's private items)
+#[cfg(nrel_altrios_verif)]
+impl super::Consist {
+    /// put the (serde-skipped, never invalidated) cached count of battery-equipped units into a given state
+    pub fn verif_set_n_res_equipped(&mut self, v: Option<u8>) {
+        self.n_res_equipped = v;
+    }
+}
